@@ -59,6 +59,22 @@ UNSIZED_WRAPPERS = [
 ]
 
 
+IMPL_PROGRAMS = [
+    ("#[derive_ex(Add)] impl Add<&'static Tag> for Tags { type Output = Tags; .. }",
+     "#[derive(Clone)] pub struct Tag(pub u8);\n#[derive(Clone)] pub struct Tags(pub Vec<&'static Tag>);\n"
+     "#[::derive_ex::derive_ex(Add)]\nimpl ::core::ops::Add<&'static Tag> for Tags { type Output = Tags; "
+     "fn add(mut self, rhs: &'static Tag) -> Tags { self.0.push(rhs); self } }\npub fn run() {}"),
+    ("#[derive_ex(Add)] impl<'a> Add<&'a Tag> for Acc<'a> { type Output = Acc<'a>; .. }",
+     "#[derive(Clone)] pub struct Tag(pub u8);\n#[derive(Clone)] pub struct Acc<'a>(pub Vec<&'a Tag>);\n"
+     "#[::derive_ex::derive_ex(Add)]\nimpl<'a> ::core::ops::Add<&'a Tag> for Acc<'a> { type Output = Acc<'a>; "
+     "fn add(mut self, rhs: &'a Tag) -> Acc<'a> { self.0.push(rhs); self } }\npub fn run() {}"),
+    ("#[derive_ex(Sub, SubAssign)] impl<'a> Sub<&'a Tag> for Acc<'a> { type Output = Self; .. }",
+     "#[derive(Clone)] pub struct Tag(pub u8);\n#[derive(Clone)] pub struct Acc<'a>(pub Vec<&'a Tag>);\n"
+     "#[::derive_ex::derive_ex(Sub, SubAssign)]\nimpl<'a> ::core::ops::Sub<&'a Tag> for Acc<'a> { type Output = Self; "
+     "fn sub(mut self, rhs: &'a Tag) -> Self { self.0.push(rhs); self } }\npub fn run() {}"),
+]
+
+
 class C20(Prop):
     pid = 'C20'
     tag = 'all generated impls'
@@ -283,6 +299,9 @@ class C20(Prop):
                 text = ('#[derive_ex(%s)] %s' % (attr, decl)) if mode == 'A' else '#[derive(Ex)] #[derive_ex(%s)] %s' % (attr, decl)
                 mods.append(l2.Module(3 * 10 ** 6 + 2 * k + (mode == 'D'),
                                       WR + head + decl + '\npub fn run() {}', _Lit(text)))
+        # operators derived from an `impl` whose operand is a reference with an explicit, load-bearing lifetime
+        for k, (text, src) in enumerate(IMPL_PROGRAMS):
+            mods.append(l2.Module(4 * 10 ** 6 + k, src, _Lit(text)))
         nb = max(1, min(R.NPROC, len(mods) // 40 + 1))
         batches = [('c20_%d' % k, mods[k::nb]) for k in range(nb)]
         l2.compile_parallel(batches, prelude=PRELUDE, check_only=True, crate_attrs=CRATE_ATTRS)
